@@ -516,7 +516,7 @@ func setGenExpr(t *schema.Table, c *schema.Column, f int64) error {
 	}
 	// The column name must end where it is matched (a closing quote or a space follows it),
 	// so that "a" is not found in the definition of an earlier column named "a2".
-	re, err := regexp.Compile(fmt.Sprintf("(?:[(,]\\s*)[\"`]*(%s)[\"`\\s](?:\\([^)]*\\)|[^,(])*(?i:GENERATED\\s+ALWAYS)*\\s*(?i:AS){1}\\s*\\(", c.Name))
+	re, err := regexp.Compile(fmt.Sprintf("(?:[(,]\\s*)[\"`]*(%s)[\"`\\s](?:\\([^)]*\\)|[^,(])*(?i:GENERATED\\s+ALWAYS)*\\s*(?i:AS){1}\\s*\\(", regexp.QuoteMeta(c.Name)))
 	if err != nil {
 		return err
 	}
